@@ -24,11 +24,14 @@ type trimWriter struct {
 // Write only returns the bytes written to w during a flush.
 func (tw *trimWriter) Write(b []byte) (n int, err error) {
 	verifhook.Yield(verifhook.SiteTrimWrite)
+	// Flush first in either case, so that a later TrimLeft can only reach the
+	// text written here and not older output that is still sitting in the buffer.
+	if n, err = tw.Flush(); err != nil {
+		return n, err
+	}
 	if tw.trim {
 		b = bytes.TrimLeftFunc(b, unicode.IsSpace)
 		tw.trim = false
-	} else if n, err = tw.Flush(); err != nil {
-		return n, err
 	}
 	_, err = tw.buf.Write(b)
 	return
